@@ -94,6 +94,12 @@ def check(repo, res, tier):
     borrow(repo, res, tier, c09, {'C09.R4'}, 'C05.L8')
     borrow(repo, res, tier, c18, {'C18.V8'}, 'C05.L8')
     borrow(repo, res, tier, c18, {'C18.V3'}, 'C05.L8')
+    from . import c03
+    res.rule('C05.L14', 'adopted C03.Q3 (a task waits for its predecessors\' data the remaining time, not until an absolute '
+                        'time: the serial bound) and C08.A4 (the ingest admission counts the machines that are really free, '
+                        'else provisioning raises)')
+    borrow(repo, res, tier, c03, {'C03.Q3'}, 'C05.L14')
+    borrow(repo, res, tier, c08, {'C08.A4'}, 'C05.L14')
 
 
 # ---------------------------------------------------------------------- L1
